@@ -101,6 +101,13 @@ def generate(rng, tier):
         else:
             k = rng.randint(1, min(3, len(cols)))
             case["keys"] = rng.sample(cols, k)
+            strk = [i for i, s_ in enumerate(case["spec"]) if s_[1] == "str" and s_[0] in case["keys"]]
+            if strk and rng.random() < 0.35:
+                # keys that differ only by trailing NUL characters are different strings
+                i = rng.choice(strk)
+                n_, k_, vs_ = case["spec"][i]
+                case["spec"][i] = (n_, k_, [v + rng.choice(["\x00", "\x00\x00"]) if isinstance(v, str) and rng.random() < 0.4 else v for v in vs_])
+                case["tags"] = sorted(set(case["tags"]) | {"nul-suffixed-keys"})
     return case
 
 def _to_np_value(kind, v):
